@@ -1,6 +1,8 @@
 """C05 — burst features equal their documented definitions.
 Streams: (a) whole pipeline (cycles method) vs Model/Features.v; (b) the individual functions with all three
-directions on synthetic tables (zero / negative / equal / NaN flank voltages) vs Model/BurstFeat.v."""
+directions on synthetic tables (zero / negative / equal / NaN flank voltages) vs Model/BurstFeat.v; (c) compute_monotonicity
+on hand-made signals (flat, strictly monotone, plateau, zig-zag, wrong-way and two-sample flanks; both centrings) vs
+Model/BurstFeat.v monotonicity_row (runner in Model/TableRuns.v)."""
 import math
 import numpy as np
 from harness import coqio, pipeline
@@ -14,23 +16,33 @@ COQ_STREAMS = {
     'funcs': ('From Coq Require Import List ZArith NArith Floats.PrimFloat. Import ListNotations.\n'
               'From ByC Require Import Base.Result Harness.Compare Model.BurstFeat Model.BurstFeatRun.\nOpen Scope float_scope.',
               'bad_burst_funcs', ('bf_in', 'bf_out'), 200),
+    'mono': ('From Coq Require Import List ZArith NArith Floats.PrimFloat. Import ListNotations.\n'
+             'From ByC Require Import Base.Result Harness.Compare Model.BurstFeat Model.TableRuns.\nOpen Scope float_scope.',
+             'bad_monotonicity', ('mono_in', 'list float'), 200),
 }
-RULE = ('(a) compute_features(burst_method="cycles") on generated signals incl. tie-rich quantised/clipped ones, both '
-        'centrings; (b) compute_amp_fraction / compute_amp_consistency / compute_period_consistency with direction in '
-        '{both,next,last} on synthetic tables of both centrings with positive, zero, negative, equal and NaN flank voltages '
-        'and tied amplitudes; non-trivial = >= 3 rows')
-ASSUMPTIONS = ['signals finite', 'sign of zero results not compared (-0 == +0)']
+RULE = ('(a) compute_features(burst_method="cycles") on generated signals of all 12 kinds (tie-rich quantised/clipped ones '
+        'weighted up), both centrings; (b) compute_amp_fraction / compute_amp_consistency / compute_period_consistency with '
+        'direction in {both,next,last} on synthetic tables of both centrings with positive, zero, negative, equal and NaN '
+        'flank voltages and tied amplitudes; (c) compute_monotonicity on hand-made signals whose flanks are strictly '
+        'monotone, flat, plateau-rich, zig-zag, wrong-way, one-ulp steps or two samples long, both centrings; '
+        'non-trivial = >= 3 rows (a, b), a row with monotonicity strictly between 0 and 1 (c)')
+ASSUMPTIONS = ['signals finite', 'sign of zero results not compared (-0 == +0)',
+               'where the statement defines nothing, the oracle does not judge and only the model comparison applies: '
+               'a table without cycles (the model pins IndexError), amp_consistency of a cycle one of whose involved '
+               'min/max ratios is NaN (0/0, NaN or infinite flank voltage), amp_fraction of a table containing a NaN '
+               'amplitude']
 DIRS = {'both': 'Both', 'next': 'Next', 'last': 'Last'}
 
 
 def stream_of(c):
-    return 'funcs' if c['kind'].startswith('synthetic') else 'pipe'
+    return 'mono' if c['kind'].startswith('synthetic-mono') else 'funcs' if c['kind'].startswith('synthetic') else 'pipe'
 
 
 def cases(rng, tier):
     n = 90 if tier == 'quick' else 900
-    out = [pipeline.gen_case(rng, tier, methods=('cycles',), kinds=['quant', 'clip', 'sine', 'asym', 'bursty', 'noise', 'sum', 'zeroed', 'dc'],
-                             fek_prob=0.4) for _ in range(n)]
+    out = [pipeline.gen_case(rng, tier, methods=('cycles',),
+                             kinds=['quant', 'quant', 'clip', 'clip', 'sine', 'asym', 'bursty', 'noise', 'sum', 'zeroed', 'dc',
+                                    'chirp', 'scaled', 'sparse'], fek_prob=0.4) for _ in range(n)]
     m = 1200 if tier == 'quick' else 12000
     for _ in range(m):
         nrow = rng.choice([0, 1, 2, 3, 4, 5, 7, 10])
@@ -48,7 +60,51 @@ def cases(rng, tier):
                     'rises': [v() for _ in range(nrow)], 'decays': [v() for _ in range(nrow)],
                     'periods': [rng.choice([8, 10, 10, 12, 16, 20]) for _ in range(nrow)],
                     'amps': [v() for _ in range(nrow)], 'index': rng.choice(['default', 'default', 'offset', 'reversed'])})
+    for _ in range(400 if tier == 'quick' else 4000):
+        out.append(_gen_mono(rng))
     return out
+
+
+MONO_STYLES = ['strict', 'strict', 'flat', 'plateau', 'zigzag', 'reverse', 'random', 'ulp']
+
+
+def _gen_mono(rng):
+    """A hand-made signal and a cycle table on it. Extrema e_0 < e_1 < ... ; row i = (last e_2i, centre e_2i+1,
+    next e_2i+2). Flank j rises iff (peak-centred and j even) or (trough-centred and j odd)."""
+    peak = rng.random() < 0.5
+    nrow = rng.choice([1, 1, 2, 3, 4, 6])
+    pos = [rng.randint(0, 3)]
+    vals = [rng.choice([0.0, -1.0, 0.5, 100.0])]
+    vals = vals * (pos[0] + 1)
+    table_style = rng.choice(MONO_STYLES + ['mixed', 'mixed', 'mixed'])
+    for j in range(2 * nrow):
+        ln = rng.choice([1, 1, 2, 3, 5, 8, 13])       # 1 = a two-sample flank
+        up = (j % 2 == 0) == peak
+        d = 1.0 if up else -1.0
+        style = rng.choice(MONO_STYLES) if table_style == 'mixed' else table_style
+        for k in range(ln):
+            cur = vals[-1]
+            if style == 'strict':
+                nxt = cur + d * rng.choice([1.0, 0.5, 0.25])
+            elif style == 'flat':
+                nxt = cur
+            elif style == 'plateau':
+                nxt = cur + d * rng.choice([1.0, 0.0, 0.0])
+            elif style == 'zigzag':
+                nxt = cur + (d if k % 2 == 0 else -d)
+            elif style == 'reverse':
+                nxt = cur - d * rng.choice([1.0, 0.5])
+            elif style == 'ulp':
+                nxt = math.nextafter(cur, cur + d) if rng.random() < 0.7 else cur
+            else:
+                nxt = cur + rng.choice([-1.0, 0.0, 0.0, 1.0])
+            vals.append(nxt)
+        pos.append(pos[-1] + ln)
+    vals.extend([vals[-1]] * rng.randint(0, 3))
+    scale = rng.choice([1.0, 1.0, 1.0, 2.0 ** -30, 2.0 ** 20])      # powers of two: order and ties are kept
+    return {'kind': 'synthetic-mono/' + table_style, 'peak': peak, 'sig': [float(v * scale).hex() for v in vals],
+            'rows': [[pos[2 * i], pos[2 * i + 1], pos[2 * i + 2]] for i in range(nrow)],
+            'index': rng.choice(['default', 'default', 'offset'])}
 
 
 def _f(xs):
@@ -62,6 +118,8 @@ def _uf(xs):
 def run_impl(c):
     if not c['kind'].startswith('synthetic'):
         return pipeline.run_pipe(c)
+    if c['kind'].startswith('synthetic-mono'):
+        return _run_mono(c)
     import pandas as pd
     from bycycle.features.burst import compute_amp_fraction, compute_amp_consistency, compute_period_consistency
     n = len(c['rises'])
@@ -88,6 +146,50 @@ def run_impl(c):
     return out
 
 
+def _run_mono(c):
+    import pandas as pd
+    from bycycle.features.burst import compute_monotonicity
+    sig = np.array([float.fromhex(h) for h in c['sig']], dtype=float)
+    side = 'trough' if c['peak'] else 'peak'
+    centre = 'peak' if c['peak'] else 'trough'
+    rows = c['rows']
+    df = pd.DataFrame({'sample_last_' + side: np.array([r[0] for r in rows], dtype=int),
+                       'sample_' + centre: np.array([r[1] for r in rows], dtype=int),
+                       'sample_next_' + side: np.array([r[2] for r in rows], dtype=int)})
+    if c.get('index') == 'offset':
+        df.index = np.arange(len(rows)) + 5
+    snap = sig.copy()
+    try:
+        mo = np.asarray(compute_monotonicity(df, sig), dtype=float)
+    except Exception as e:
+        return {'mo_err': exc_kind(e)}
+    if mo.ndim != 1 or len(mo) != len(rows):
+        return {'mo_err': 'shape %s' % (mo.shape,)}
+    return {'mo': _f([float(x) for x in mo]), 'sig_unchanged': bool(np.array_equal(sig, snap))}
+
+
+def _oracle_mono(c, o):
+    """monotonicity = mean of (fraction of strictly increasing steps in the rise) and (fraction of strictly decreasing
+    steps in the decay); rise and decay run from extremum to extremum, both end points included."""
+    if 'mo_err' in o:
+        return 'compute_monotonicity failed on a valid table: %s' % o['mo_err']
+    sig = [float.fromhex(h) for h in c['sig']]
+    mo = _uf(o['mo'])
+    for i, (la, ce, nx) in enumerate(c['rows']):
+        a, b = sig[la:ce + 1], sig[ce:nx + 1]
+        rise, decay = (a, b) if c['peak'] else (b, a)
+        up = sum(1 for x, y in zip(rise, rise[1:]) if y > x) / (len(rise) - 1)
+        dn = sum(1 for x, y in zip(decay, decay[1:]) if y < x) / (len(decay) - 1)
+        want = (up + dn) / 2
+        if not pipeline.close(mo[i], want):
+            return 'monotonicity[%d] = %r, definition gives %r (rise steps %r, decay steps %r)' % (i, mo[i], want, up, dn)
+        if not (0 <= mo[i] <= 1):
+            return 'monotonicity[%d] = %r outside [0,1]' % (i, mo[i])
+    if not o.get('sig_unchanged', True):
+        return 'input signal modified'
+    return None
+
+
 def _ratio(a, b):
     if math.isnan(a) or math.isnan(b):
         return float('nan')
@@ -99,12 +201,12 @@ def _ratio(a, b):
 def oracle(c, o):
     if not c['kind'].startswith('synthetic'):
         return pipeline.oracle_burstfeat(c, o)
+    if c['kind'].startswith('synthetic-mono'):
+        return _oracle_mono(c, o)
     n = len(c['rises'])
     R, D, P, A = _uf(c['rises']), _uf(c['decays']), c['periods'], _uf(c['amps'])
     if n == 0:
-        if 'ac_err' not in o or 'pc_err' not in o:
-            return 'empty table accepted by a consistency function'
-        return None
+        return None          # a table without cycles: the statement defines nothing (the model pins IndexError)
     for k in ('af_err', 'ac_err', 'pc_err'):
         if k in o:
             return '%s: raised %s on a non-empty table' % (k, o[k])
@@ -112,13 +214,16 @@ def oracle(c, o):
     first, second = (R, D) if c['peak'] else (D, R)
     d = c['direction']
     af, ac, pc = _uf(o['af']), _uf(o['ac']), _uf(o['pc'])
+    if len(af) != n or len(ac) != n or len(pc) != n:
+        return 'a feature column does not have one value per cycle'
+    ranked = not any(math.isnan(w) for w in A)     # the rank of / among NaN amplitudes is not defined by the statement
     for i in range(n):
-        if math.isnan(A[i]):
-            want = float('nan')
-        else:
+        if ranked:
             want = (sum(1 for w in A if w < A[i]) + (sum(1 for w in A if w == A[i]) + 1) / 2) / n
-        if not pipeline.close(af[i], want):
-            return 'amp_fraction[%d] = %r, average rank / n = %r' % (i, af[i], want)
+            if not pipeline.close(af[i], want):
+                return 'amp_fraction[%d] = %r, average rank / n = %r' % (i, af[i], want)
+            if not (0 <= af[i] <= 1):
+                return 'amp_fraction[%d] = %r outside [0,1]' % (i, af[i])
         if i == 0 or i == n - 1:
             if not (math.isnan(ac[i]) and math.isnan(pc[i])):
                 return 'consistency of an end cycle is not NaN'
@@ -127,18 +232,19 @@ def oracle(c, o):
         lst = _ratio(second[i - 1], first[i])
         nxt = _ratio(second[i], first[i + 1])
         sel = {'both': [cur, nxt, lst], 'next': [cur, nxt], 'last': [cur, lst]}[d]
-        if all(math.isnan(x) for x in (cur, nxt, lst)):
-            want = float('nan')
-        else:
-            vals = [x for x in sel if not math.isnan(x)]
-            want = max(0.0, min(vals)) if vals else float('nan')
-        if not pipeline.close(ac[i], want):
-            return 'amp_consistency[%d] (%s) = %r, definition gives %r' % (i, d, ac[i], want)
+        if not any(math.isnan(x) for x in sel):
+            # every involved min/max ratio is defined: the smallest of them, clamped at 0. (With an undefined ratio
+            # - 0/0, NaN flank - the statement says nothing; the NaN handling is pinned by the model comparison.)
+            want = max(0.0, min(sel))
+            if not pipeline.close(ac[i], want):
+                return 'amp_consistency[%d] (%s) = %r, definition gives %r' % (i, d, ac[i], want)
         pl, pn = _ratio(P[i], P[i - 1]), _ratio(P[i], P[i + 1])
         want = {'both': min(pl, pn), 'next': pn, 'last': pl}[d]
         if not pipeline.close(pc[i], want):
             return 'period_consistency[%d] (%s) = %r, definition gives %r' % (i, d, pc[i], want)
-        if all(x > 0 for x in (first[i], second[i], second[i - 1], first[i + 1])) and not (0 <= ac[i] <= 1):
+        if not (0 <= pc[i] <= 1):
+            return 'period_consistency[%d] = %r outside [0,1] with positive periods' % (i, pc[i])
+        if all(0 < x < float('inf') for x in (first[i], second[i], second[i - 1], first[i + 1])) and not (0 <= ac[i] <= 1):
             return 'amp_consistency outside [0,1] with positive flank voltages'
     return None
 
@@ -146,6 +252,8 @@ def oracle(c, o):
 def nontrivial(c, o):
     if not c['kind'].startswith('synthetic'):
         return pipeline.nontrivial_table(c, o)
+    if c['kind'].startswith('synthetic-mono'):
+        return 'mo' in o and any(x is not None and 0 < x < 1 for x in o['mo'])
     return len(c['rises']) >= 3 and 'ac' in o
 
 
@@ -162,6 +270,12 @@ def _res(o, key):
 def coq_case(c, o):
     if not c['kind'].startswith('synthetic'):
         return pipeline.coq_case(c, o)
+    if c['kind'].startswith('synthetic-mono'):
+        if 'mo_err' in o:
+            return None          # the model has no error for a valid table; the oracle has already reported it
+        inp = '(%s, %s, %s)' % (coqio.B(c['peak']), coqio.flist([float.fromhex(h) for h in c['sig']]),
+                                coqio.lst(['(%s, %s, %s)' % tuple(coqio.Z(x) + '%Z' for x in r) for r in c['rows']]))
+        return inp, coqio.flist(_uf(o['mo']))
     if 'af_err' in o:
         return None
     inp = '(%s, %s, %s, %s, %s, %s)' % (coqio.B(c['peak']), DIRS[c['direction']], coqio.flist(_uf(c['rises'])),
